@@ -8,7 +8,8 @@ from mc import pool, seams, canon, factory_engine as F
 from . import c12
 
 # à = c3 a0, Ѕ = d0 85: last UTF-8 byte looks like NBSP / NEL; U+2028 and FF: line ends for str.splitlines() only, not for Sieve comments
-CHARS = ["a", " ", "é", "#", ":", '"', "F", "à", "Ѕ", "\u2028", "\x0c"]
+# e + U+0301 (decomposed) and U+2126 OHM SIGN (a singleton): text that Unicode normalisation would rewrite - names are octets, not glyphs
+CHARS = ["a", " ", "é", "#", ":", '"', "F", "à", "Ѕ", "\u2028", "\x0c", "e\u0301", "\u2126"]
 MARKERS = [("# Filter: ", "# Description: "), ("# rule:", "# info:"), ("#N ", "#D "), ("# Règle : ", "# Détail → ")]
 
 
